@@ -154,6 +154,14 @@ def gym_reads_follow_reset_and_step(outer_env, action):
               and t[0] is ghost_result(OSTATE, last_call(OSTATE)) and ghost_seq(OSTEP, 1) < ghost_seq(OSTATE, last_call(OSTATE))
               and t[3]['observation'] is ghost_result(OOBS, last_call(OOBS))
               and ghost_seq(OSTEP, 1) < ghost_seq(OOBS, last_call(OOBS)))
+        u = w.step(action)
+        check('second-wrapper-step-passes-its-own-observation-through-info', lambda: ghost_calls(OSTEP) == 3
+              and u[0] is ghost_result(OSTATE, last_call(OSTATE)) and ghost_seq(OSTEP, 2) < ghost_seq(OSTATE, last_call(OSTATE))
+              and u[3]['observation'] is ghost_result(OOBS, last_call(OOBS))
+              and ghost_seq(OSTEP, 2) < ghost_seq(OOBS, last_call(OOBS))
+              and u[1] == ghost_result(OSTEP, 2)[0] and u[2] == ghost_result(OSTEP, 2)[1])
+        r2 = g.step(action)
+        check('plain-step-info-is-empty-again', lambda: len(r2[3]) == 0)
 
 
 # ------------------------------------------------------------------------- reads and seeding
